@@ -21,6 +21,8 @@ func init() {
 }
 
 func runC12(c *eng.Ctx) {
+	c.Rule("R12.8", "K5")
+	ruleRebalanceCountsPartitionsNow(c)
 	p := c.P
 
 	// ---- R12.1 order independence
